@@ -177,6 +177,12 @@ def token_cases(draw):
         for _ in range(draw(st.integers(0, 3))):
             out.append(draw(st.sampled_from(["ZXS(ZID\n-1) ;", "ZXS(a ZID\nb) ;", "ZXW(ZTWO\n+ ZONE) ;", "ZXS(ZID\n\n[3]) ;", "ZXS(ZID /*c*/\n- 2) ;", "ZXS((ZID\n, ZFST\n)) ;",
                                              "ZXS(ZID\n ZID\n(4)) ;", "x ZID\ny ;", "ZS(ZID\n-1) ;"])))
+        # a function-like macro name that ends an argument whose parameter ends the replacement list: after substitution the
+        # expander looks past the end of the exhausted frames for a '(' and, finding none, must still have the name token
+        out.append("#define ZLAST(x) x\n#define ZLAST2(a, b) a b")
+        for _ in range(draw(st.integers(0, 3))):
+            out.append(draw(st.sampled_from(["ZLAST(1 + ZID) ;", "ZLAST(ZID) + 1 ;", "ZLAST(int ZFST) = 3 ;", "ZLAST(ZLAST(2 * ZTWO)) ;", "ZLAST2(1, ZID) ;", "ZLAST2(ZID, ZTWO) - ZONE ;",
+                                             "ZLAST(a b c d e f g h i j k l m n o p q r s t u v w x y z ZID) ;", "ZLAST(ZID)\n(5) ;", "ZLAST(ZID) ZLAST(ZTWO) (1, 2) ;", "ZLAST(ZS) (q) ;"])))
         tails = ["ZPAIR, 9)", "ZONE)", "ZPAIR)", "ZONE, ZPAIR)", ", ZPAIR)", "ZNONE, ZNONE ZONE)", "(ZPAIR))", "ZCL", "ZONE ZCL", ", ZONE ZCL ZCL", "ZNONE ) ZONE"]
         heads = ["ZOPF", "ZOPI", "ZOPT", "ZOPV", "ZOPN (", "ZOPN ZNONE ("] + ([] if strict else ["ZOPS"])
         for _ in range(draw(st.integers(1, 5))):
